@@ -47,9 +47,12 @@ Const(k, b) == IF k = 0 THEN <<>> ELSE [i \in 1..k |-> b]
 \* values for a field; `room` is the room of an open-ended field in the element at hand (unused otherwise)
 ScalarValues(f) ==
   LET top == f.argmax IN
-  {x \in {0, 1, 2^f.n - 1, 2^f.n, 2^f.n + 1, Rep(85, IF top > 255 THEN 16 ELSE 8), Rep(170, IF top > 255 THEN 16 ELSE 8), top, Rnd(f.n + f.sbit) % (top + 1)}
+  {x \in {0, 1, 2^f.n - 2, 2^f.n - 1, 2^f.n, 2^f.n + 1, top - 1, Rep(85, IF top > 255 THEN 16 ELSE 8), Rep(170, IF top > 255 THEN 16 ELSE 8), top, Rnd(f.n + f.sbit) % (top + 1)}
      : x <= top}
-ArrayValues(f) == LET k == f.r1 - f.r0 + 1 IN {Const(k, 0), Const(k, 255), Const(k, 85), Const(k, 170), Ramp(k, 1), Ramp(k, RndOct(k))}
+\* one below the largest / one above the smallest multi-octet value (reserved "deleted" / "unknown" code points live there)
+EndWith(k, b, last) == [i \in 1..k |-> IF i = k THEN last ELSE b]
+ArrayValues(f) == LET k == f.r1 - f.r0 + 1 IN {Const(k, 0), Const(k, 255), Const(k, 85), Const(k, 170), Ramp(k, 1), Ramp(k, RndOct(k)),
+                                               EndWith(k, 255, 254), EndWith(k, 0, 1), EndWith(k, 255, 0), EndWith(k, 0, 255)}
 SliceValues(room) == {Ramp(k, RndOct(k)) : k \in {x \in {0, 1, room - 1, room, room + 1, room + 3} : x >= 0}} \cup {Const(room, 255), Const(room, 0)}
 ValuesL(t, f, L) ==
   CASE f.kind = "string" -> {}                                  \* DNN text accessor: not a bit layout (judged by C12/C14)
